@@ -16,4 +16,5 @@ ORACLES = {
 FIELD_TYPES = {
     ('pjrpc.server.dispatcher:MethodRegistry', '_registry'): 'dict[pjrpc.server.dispatcher:Method]',
     ('pjrpc.server.dispatcher:BaseDispatcher', '_registry'): '=pjrpc.server.dispatcher:MethodRegistry',
+    ('pjrpc.server.dispatcher:BaseDispatcher', '_error_handlers'): 'dict[list[=UserErrorHandler]]',
 }
